@@ -1143,3 +1143,49 @@ def c05n(ctx):
         else:
             ctx.bad('%s:%s' % (o.rule, o.construct), o.msg, o.where)
     ctx.stats['functions'] |= sub.stats['functions']
+
+
+@rule('C05.o', floor=6)
+def c05o(ctx):
+    """tiles that differ only in a dimension value live at different places for *every* operation: each method of a cache that
+    keeps dimension values apart (supports_dimensions) hands its `dimensions` argument on to every location it computes and to every
+    sibling operation it delegates to -- an existence check, a load or a remove that computes the location without them addresses the
+    tile of another (or no) dimension value"""
+    for cls in ctx.repo.classes.values():
+        if not cls.file.startswith('mapproxy/cache/') or '/test/' in cls.file:
+            continue
+        sd = cls.attr_value('supports_dimensions')
+        if const_value(sd) is not True:
+            continue
+        n = 0
+        for st in cls.node.body:
+            if not isinstance(st, ast.FunctionDef) or 'dimensions' not in [a.arg for a in st.args.args + st.args.kwonlyargs]:
+                continue
+            if st.name in ('tile_location', 'level_location'):
+                continue            # the location builders themselves (C05.b / C09.b)
+            fn = ctx.fn('%s:%s.%s' % (cls.file, cls.name, st.name))
+            for c in fn.walk():
+                if not (isinstance(c, ast.Call) and isinstance(c.func, ast.Attribute) and isinstance(c.func.value, ast.Name) and c.func.value.id == 'self'):
+                    continue
+                callee = c.func.attr
+                target = None
+                for k in cls.mro():
+                    for m in k.node.body:
+                        if isinstance(m, ast.FunctionDef) and m.name == callee:
+                            target = m
+                            break
+                    if target is not None:
+                        break
+                if target is None or 'dimensions' not in [a.arg for a in target.args.args + target.args.kwonlyargs]:
+                    continue
+                n += 1
+                pos = [a.arg for a in target.args.args].index('dimensions') - 1 if 'dimensions' in [a.arg for a in target.args.args] else None
+                d = keyword(c, 'dimensions', pos)
+                ok = d is not None and same(d, 'dimensions')
+                k_ = sum(1 for o in ctx.obs if o.construct.startswith('%s.%s:%s#' % (cls.name, st.name, callee)))
+                ctx.check(ok, '%s.%s:%s#%d-gets-dimensions' % (cls.name, st.name, callee, k_),
+                          'self.%s(...) receives the dimensions of the operation' % callee, fn, c,
+                          fail='%s.%s calls self.%s without handing on `dimensions`: the operation addresses the tile of another dimension '
+                               'value' % (cls.name, st.name, callee))
+        if n == 0:
+            raise Undecided('%s: no location computation with dimensions found' % cls.name)
